@@ -7,8 +7,25 @@
 #![allow(clippy::all)]
 #![allow(dead_code)]
 
+mod c01;
 mod c02;
+mod c03;
+mod c04;
+mod c05;
+mod c06;
+mod c07;
 mod c08;
+mod c09;
+mod c10;
+mod c11;
+mod c12;
+mod c13;
+mod c14;
+mod c15;
+mod c16;
+mod c17;
+mod c18;
+mod c19;
 mod c20;
 mod common;
 
@@ -33,8 +50,25 @@ fn main() {
             let seed: u64 = args.get(3).and_then(|s| s.parse().ok()).unwrap_or(1);
             let thorough = args.get(4).map(|s| s == "thorough").unwrap_or(false);
             let cases = match prop {
+                "C01" => c01::gen(seed, thorough),
                 "C02" => c02::gen(seed, thorough),
+                "C03" => c03::gen(seed, thorough),
+                "C04" => c04::gen(seed, thorough),
+                "C05" => c05::gen(seed, thorough),
+                "C06" => c06::gen(seed, thorough),
+                "C07" => c07::gen(seed, thorough),
                 "C08" => c08::gen(seed, thorough),
+                "C09" => c09::gen(seed, thorough),
+                "C10" => c10::gen(seed, thorough),
+                "C11" => c11::gen(seed, thorough),
+                "C12" => c12::gen(seed, thorough),
+                "C13" => c13::gen(seed, thorough),
+                "C14" => c14::gen(seed, thorough),
+                "C15" => c15::gen(seed, thorough),
+                "C16" => c16::gen(seed, thorough),
+                "C17" => c17::gen(seed, thorough),
+                "C18" => c18::gen(seed, thorough),
+                "C19" => c19::gen(seed, thorough),
                 "C20" => c20::gen(seed, thorough),
                 _ => {
                     eprintln!("unknown property {prop}");
@@ -85,8 +119,25 @@ fn main() {
 
 fn prop_run(prop: &str, line: &str) -> Option<(String, Vec<String>)> {
     match prop {
+        "C01" => c01::run(line),
         "C02" => c02::run(line),
+        "C03" => c03::run(line),
+        "C04" => c04::run(line),
+        "C05" => c05::run(line),
+        "C06" => c06::run(line),
+        "C07" => c07::run(line),
         "C08" => c08::run(line),
+        "C09" => c09::run(line),
+        "C10" => c10::run(line),
+        "C11" => c11::run(line),
+        "C12" => c12::run(line),
+        "C13" => c13::run(line),
+        "C14" => c14::run(line),
+        "C15" => c15::run(line),
+        "C16" => c16::run(line),
+        "C17" => c17::run(line),
+        "C18" => c18::run(line),
+        "C19" => c19::run(line),
         "C20" => c20::run(line),
         _ => None,
     }
